@@ -81,6 +81,7 @@ UsableCipher(x) == x = "AES"
 (* Named list shapes for the configuration files (a .cfg cannot spell << >>). *)
 Lists8   == { << >>, <<"A">>, <<"B">>, <<"A", "B">>, <<"B", "A">>, <<"U">>, <<"U", "A">>, <<"X">> }
 Ciphers4 == { << >>, <<"AES">>, <<"BF">>, <<"BF", "AES">> }
+Ciphers2 == { <<"AES">>, <<"BF">> }          \* one usable, one not (quick tier model check)
 ListsC04 == { << >>, <<"A">>, <<"B">> }      \* no authentication, CLAIMTOBE, TOKEN
 ListsF   == { <<"F">>, <<"F", "A">>, <<"A">> }
 OnlyAES  == { <<"AES">> }
